@@ -146,3 +146,35 @@ def gc_check(prop):
 
 assume_doc("GCENUM", "BOUNDED, not proved: 35 events (5 kind classes x 7 expiration texts) per backend, one collector pass, clock = the machine's clock; "
            "the LMDB side runs on the in-memory stand-in")
+
+
+def roles_check(prop):
+    """extra check for C14: the role table round trip (assign / re-assign / revoke / read) on the real SQL storage"""
+
+    def check(tier, seed):
+        t0 = time.time()
+        outdir = os.path.join(os.environ.get("PYVC_OUT_DIR", ROOT), "replays")
+        os.makedirs(outdir, exist_ok=True)
+        out = os.path.join(outdir, "%s_roles.json" % prop)
+        env = dict(os.environ)
+        env["PYTHONPATH"] = ROOT
+        p = subprocess.run([sys.executable, os.path.join(ROOT, "bounded", "roles_enum.py"), "--json", out], capture_output=True, text=True, env=env, timeout=900)
+        if p.returncode != 0 or not os.path.exists(out):
+            raise RuntimeError("roles_enum failed: %s" % (p.stdout + p.stderr)[-1500:])
+        r = json.load(open(out))
+        res = {"name": "role-storage-roundtrip", "kind": "bounded stand-in (all operation sequences up to length 3 over two keys, real DBStorage on sqlite)",
+               "status": "ok", "evaluations": r["cases"], "distinct": r["cases"], "known_lines": [], "exhaustive": True,
+               "rule": "one case per operation of every sequence of <= 3 operations out of {assign 'a' / 'WQ' / '' to P1, assign 'a' to P2, read P1, read P2} "
+                       "followed by a read of both keys; a fresh storage object per sequence",
+               "samples": r.get("samples", [])[:2], "seconds": round(time.time() - t0, 1)}
+        if r["failure_classes"]:
+            res["status"] = "violation"
+            res["failures"] = [{"kind": c["kind"], "count": c["count"], "example": c["example"]} for c in r["failure_classes"]]
+        return res
+
+    check.__name__ = "roles_%s" % prop
+    return check
+
+
+assume_doc("ROLES", "BOUNDED, not proved: role table histories of at most 3 operations + 2 reads over two public keys, SQL backend only (the LMDB backend "
+           "stores roles as service events, i.e. through add_event and the query path)")
